@@ -1,7 +1,7 @@
 (* Projections of the bundled postcondition op_post onto the three properties it serves. *)
 From Coq Require Import ZArith Lia Bool.
 From Apd Require Import Generated.Consts Model.Base Model.NumDigits Model.Decimal Model.Context Spec.SpecZ Spec.Order
-  Proofs.Digits Proofs.Core Proofs.SetExponent Proofs.RoundSpec Proofs.OpsProofs.
+  Proofs.Digits Proofs.Core Proofs.SetExponent Proofs.RoundSpec Proofs.OpsProofs Proofs.QuoProofs.
 Open Scope Z_scope.
 
 Definition rdec_value (r : res result) : option dec := match r with Ok r => rdec r | _ => None end.
@@ -162,6 +162,32 @@ Lemma c07_mul_normal_range_partial c (x y : dec) : ctx_ok c -> finite_nn x -> fi
   exists d f, ctx_mul est c x y = Ok (finish c d f) /\ c07_post c d.
 Proof.
   intros Hc H0 H1 H2 H3 H4 H5 H6. destruct (mul_correct_normal est HE c x y Hc H0 H1 H2 H3 H4 H5 H6) as (d & f & Hr & Hp).
+  exists d, f. split; [exact Hr|]. exact (post_c07 c _ d f Hp).
+Qed.
+
+(* Quo: every pair of finite operands with a non-zero divisor (zero dividend included) *)
+Definition quo_hyps (c : ctx) (x y : dec) : Prop :=
+  ctx_ok c /\ finite_nn x /\ finite_nn y /\ 0 < coeff y /\
+  (coeff x = 0 -> in_lim (exp x - exp y)) /\ (0 < coeff x -> quo_limits c x y).
+
+Lemma c01_quo c (x y : dec) : quo_hyps c x y ->
+  exists d f, ctx_quo est c x y = Ok (finish c d f) /\ c01_post c (exact_quo x y) d.
+Proof.
+  intros (Hc & H0 & H1 & H2 & H3 & H4). destruct (quo_op_post est HE c x y Hc H0 H1 H2 H3 H4) as (d & f & Hr & Hp).
+  exists d, f. split; [exact Hr|]. exact (post_c01 c _ d f Hp).
+Qed.
+
+Lemma c02_quo c (x y : dec) : quo_hyps c x y ->
+  exists d f, ctx_quo est c x y = Ok (finish c d f) /\ c02_post c (exact_quo x y) d f.
+Proof.
+  intros (Hc & H0 & H1 & H2 & H3 & H4). destruct (quo_op_post est HE c x y Hc H0 H1 H2 H3 H4) as (d & f & Hr & Hp).
+  exists d, f. split; [exact Hr|]. exact (post_c02 c _ d f Hp).
+Qed.
+
+Lemma c07_quo c (x y : dec) : quo_hyps c x y ->
+  exists d f, ctx_quo est c x y = Ok (finish c d f) /\ c07_post c d.
+Proof.
+  intros (Hc & H0 & H1 & H2 & H3 & H4). destruct (quo_op_post est HE c x y Hc H0 H1 H2 H3 H4) as (d & f & Hr & Hp).
   exists d, f. split; [exact Hr|]. exact (post_c07 c _ d f Hp).
 Qed.
 
